@@ -30,6 +30,12 @@ TraceEntry ==
   /\ written' = Append(written, [variant |-> Rec[l].variant, values |-> Rec[l].values])
   /\ UNCHANGED <<pos, inv, layout, windows, sorted, fin, drift>>
 
+(* the same, all entries of a large store in one event (appending one by one copies the sequence each time) *)
+TraceEntries ==
+  /\ IsEvent("Entries") /\ ~fin /\ written = <<>>
+  /\ written' = Rec[l].entries
+  /\ UNCHANGED <<pos, inv, layout, windows, sorted, fin, drift>>
+
 TraceFinalize == IsEvent("Finalize") /\ ~fin /\ fin' = TRUE
                  /\ UNCHANGED <<written, pos, inv, layout, windows, sorted, drift>>
 
@@ -40,7 +46,9 @@ TraceHandles ==
        /\ Len(p) = n
        /\ {p[j] : j \in 1..n} = 0..(n - 1)
        /\ pos' = p
-       /\ inv' = [q \in 1..n |-> CHOOSE j \in 1..n : p[j] = q - 1]
+       \* the inverse permutation is supplied with the event and verified (computing it here is quadratic)
+       /\ Len(Rec[l].inv) = n /\ (\A q \in 1..n : Rec[l].inv[q] \in 1..n /\ p[Rec[l].inv[q]] = q - 1) = TRUE
+       /\ inv' = Rec[l].inv
        /\ drift' = drift + (IF sorted = <<>> /\ \E j \in 1..n : p[j] # j - 1 THEN 1 ELSE 0)
   /\ UNCHANGED <<written, layout, windows, sorted, fin>>
 
@@ -107,7 +115,7 @@ TraceDec ==
   /\ LET e == written[inv[Rec[l].p + 1]] IN Rec[l].variant = e.variant /\ Rec[l].values = e.values
   /\ UNCHANGED <<written, pos, inv, layout, windows, sorted, fin, drift>>
 
-TraceNext == TraceScn \/ TraceEntry \/ TraceFinalize \/ TraceHandles \/ TraceLayout \/ TraceIndex
+TraceNext == TraceScn \/ TraceEntry \/ TraceEntries \/ TraceFinalize \/ TraceHandles \/ TraceLayout \/ TraceIndex
              \/ TraceRead \/ TraceDec
 
 TraceSpec == TraceInit /\ [][TraceNext]_tvars
